@@ -43,6 +43,9 @@ def make_shards(tier, seed, prop):
     return out
 
 
+UNIT = 2.0 ** -10
+
+
 def ctors_for(kind):
     return ["Sigma"] if kind == "nncontrol" else (["Sigma", "Lambda", "all"] if kind.startswith("identity") else ["Sigma", "Lambda", "all", "b_none"])
 
@@ -60,6 +63,11 @@ def build_case(shard, vi, seed, ctor="Sigma", prep="fresh"):
     px_kind = "GaussianDiagPDF" if vi == 1 else "GaussianPDF"
     Sx = objs.spd_batch(Dx, Rx, vi + 1, seed, tag + ("Sx",), diag=(px_kind == "GaussianDiagPDF"))
     mx = objs.vec_batch(Dx, Rx, vi, seed, tag + ("mx",))
+    if prep == "units":
+        # the same problem with x and y measured in units of 2^10 (covariances ~1e-6): the algebra is scale-free,
+        # so any absolute constant inside the library shows up at ~1e-4 relative
+        u = UNIT
+        b, Sy, mx, Sx = b * u, Sy * u * u, mx * u, Sx * u * u
     if prep == "sliced" and kind != "nncontrol":
         # the operands are reached from elsewhere: a larger batch sliced with NEGATIVE indices
         M2 = np.concatenate([M[:1] * -0.5 + 1.0, M], axis=0)
@@ -112,7 +120,7 @@ def value_indices(tier, shard=None):
     if shard is not None and shard.get("big"):
         return [0, 100]
     ncat, ngen = NVAL[tier]
-    return list(range(ncat)) + [100 + g for g in range(ngen)]
+    return list(range(ncat)) + [100 + g for g in range(ngen)] + [objs.HARD]
 
 
 def run(shard, ctx, which):
@@ -129,7 +137,7 @@ def run(shard, ctx, which):
           if kind == "nncontrol":
               preps = ("fresh", "updated", "replaced") if vi in (0, 100) else ("fresh",)
           elif ctor in ("Sigma", "b_none") and vi in (0, 100):
-              preps = ("fresh", "sliced", "updated") + (("replaced",) if (kind in ("full", "diag") and ctor == "Sigma") else ())
+              preps = ("fresh", "sliced", "updated") + (("replaced",) if (kind in ("full", "diag") and ctor == "Sigma") else ()) + (("units",) if ctor in ("Sigma", "Lambda") else ())
           else:
               preps = ("fresh",)
           for prep in preps:
@@ -142,6 +150,8 @@ def run(shard, ctx, which):
                 continue
             x = al.points(N, Dx, salt=vi)
             y = al.points(N, Dy, salt=vi + 3)
+            if prep == "units":
+                x, y = x * UNIT, y * UNIT
             if vi == 0 and N == 2:
                 ctx.sample(dict(shard=shard["id"], vi=vi, M=M, b=b, Sigma_y=Sy, mu_x=mx, Sigma_x=Sx, x=x, y=y))
             if which == "C07":
